@@ -212,6 +212,11 @@ func init() {
 		"WatchReentry":    vxWatchReentry,
 		"Steps":           func(fr *frame, a []value) value { return fr.i.steps },
 		"WatchReentryAll": vxWatchReentryAll,
+		"ReentryLimit": func(fr *frame, a []value) value {
+			fr.i.reentryLimit = fr.i.concInt(a[0])
+			fr.i.reentryLimitID = fr.i.concString(a[1])
+			return nil
+		},
 		"BytesSymLen":     vxBytesSymLen,
 		"DeepEqual":       vxDeepEqual,
 		"Reach":           vxReach,
@@ -639,6 +644,14 @@ func vxWatchReentryAll(fr *frame, a []value) value {
 			i.pendingMsg = &noteRec{format: "%s", args: []value{iface{t: types.Typ[types.String], v: f.fn.Name() + " re-entered while active without increasing " + field}}}
 			i.assert(id, gt, "")
 			i.pendingMsg = nil
+			if i.reentryLimitID != "" {
+				// a completed cycle contains an increment followed by a limit check, so the outer
+				// activation must have been entered strictly below the limit
+				below := i.binop(token.LSS, nil, prev, int(i.reentryLimit))
+				i.pendingMsg = &noteRec{format: "%s", args: []value{iface{t: types.Typ[types.String], v: f.fn.Name() + " re-entered although the active activation was entered at or above the nesting limit (no limit check on this cycle)"}}}
+				i.assert(i.reentryLimitID, below, "")
+				i.pendingMsg = nil
+			}
 			i.ghost["reentries"]++
 		}
 		live[f.fn] = append(live[f.fn], cur)
